@@ -130,8 +130,11 @@ def rule_validation(ctx):
     cps = au.params(chk)
     txt = ast.unparse(chk)
     # which value is tested
+    from ..core.template import find as _find
+    mb = _find(f'_m_ = self.map.backward(np.asarray({cps[1]}))', chk)
+    MV = mb[0][1]['_m_'] if mb else 'mapped'
     assigns = [n for n in ast.walk(chk) if isinstance(n, ast.Assign) and
-               ast.unparse(n.targets[0]) == 'mapped']
+               ast.unparse(n.targets[0]) == MV]
     ok = False
     if len(assigns) == 2:
         a = {ast.unparse(t): pol for n in assigns
@@ -151,13 +154,13 @@ def rule_validation(ctx):
         isinstance(b, ast.Raise) for b in n.body)]
     ttxt = [ast.unparse(t.test).replace(' ', '') for t in tests]
     ctx.check('C14.M3.check', '_check_positive_finite: strictly positive',
-              'notnp.all(np.real(mapped)>0.0)' in ttxt or
-              'notnp.all(np.real(mapped)>0)' in ttxt or
-              'np.any(np.real(mapped)<=0.0)' in ttxt,
+              f'notnp.all(np.real({MV})>0.0)' in ttxt or
+              f'notnp.all(np.real({MV})>0)' in ttxt or
+              f'np.any(np.real({MV})<=0.0)' in ttxt,
               f'raising tests are {ttxt}: values must be rejected unless '
               'all > 0', ctx.where(mm, chk), sample={'tests': ttxt})
     ctx.check('C14.M3.check', '_check_positive_finite: finite',
-              'notnp.all(np.isfinite(mapped))' in ttxt,
+              f'notnp.all(np.isfinite({MV}))' in ttxt,
               f'raising tests are {ttxt}: non-finite values must be '
               'rejected', ctx.where(mm, chk))
     # setters and _init_parameter call it before storing
@@ -241,14 +244,28 @@ def is_property_read(n):
     return False
 
 
+def backward_aliases(fn):
+    """Local names bound to a `<obj>.map.backward` method."""
+    out = set()
+    for n in ast.walk(fn):
+        if isinstance(n, ast.Assign) and len(n.targets) == 1 and isinstance(
+                n.targets[0], ast.Name) and isinstance(
+                    n.value, ast.Attribute) and n.value.attr == 'backward':
+            out.add(n.targets[0].id)
+    return out
+
+
 def inside_backward(node, stop):
-    """Is `node` (an expression) inside the argument of a *.backward() /
-    map2cond() call or the property argument of derivative_chain?"""
+    """Is `node` (an expression) inside the argument of a *.backward() call
+    (or of a local alias of such a method) or the property argument of
+    derivative_chain?"""
+    aliases = backward_aliases(stop) if isinstance(
+        stop, ast.FunctionDef) else set()
     p = au.parent(node)
     while p is not None and p is not stop:
         if isinstance(p, ast.Call):
             f = ast.unparse(p.func)
-            if f.endswith('.backward') or f == 'map2cond':
+            if f.endswith('.backward') or f in aliases:
                 return 'backward'
             if f.endswith('.derivative_chain'):
                 if len(p.args) == 2 and any(node is x for x in
